@@ -81,6 +81,7 @@ def run_fuzzer(binp, corpus, workdir, seconds, jobs, seed, extra=()):
     procs = []
     env = dict(os.environ)
     env.update(FZ_ENV)
+    env["TMPDIR"] = workdir      # whatever a target creates lives and dies with the scratch directory
     for j in range(jobs):
         e = dict(env, VERIF_FZ_STATS=os.path.join(stats, "s%d.json" % j))
         cmd = [binp, corpus, "-max_total_time=%d" % seconds, "-seed=%d" % (seed * 1000 + j + 1), "-artifact_prefix=%s/" % art, "-timeout=20", "-rss_limit_mb=3000",
